@@ -9,7 +9,17 @@
            client application holds unreleased, "lost" nobody (a leak)
    held    offsets of regions whose batches the client application still holds (live by definition, DESIGN 7a)
    st      the call in progress (lock-step: client half / server half / client half)
-   cfg     [cap, world]: bytes in the data region, threshold world;   fx  the repairs present in the code (see below)
+   cfg     [cap, world, att]: bytes in the data region, threshold world, how the server side reaches the segment:
+             "static"  ShmPipeTransport on both sides
+             "cached"  plain pipe server, RpcServer.serve attaches the segment the client names and keeps it for the
+                       connection (_ConnectionShm) -- what a pooled / subprocess worker does
+             "percall" plain pipe server whose owner drives serve_one() itself: attach and detach per call
+   seg     how many times the client has moved on to a fresh segment on the same connection (a pooled worker handed to
+           the next borrower: WorkerPool gives every borrow its own segment); the server must follow the name
+   fx      the repairs present in the code (see below)
+   A payload class stands for a batch's rows AND its application metadata (exchange inputs and stream outputs carry
+   some); OutZ holds the producer-only output families (zero-column batches, nested-dictionary columns, which take the
+   non-dictionary write path although they carry dictionary batches).
 
    One action = one half round trip, inside which WriteToShm / Resolve / Release happen in the order the code has them:
      unary   BeginUnary: client writes the request (a non-Python client may route the request batch through shm)
@@ -34,19 +44,19 @@ CONSTANTS Configs,                      \* set of [cap, world]
           ReqC, ResC,                   \* request / unary result payload classes
           OutP, OutD, OutZ, InP, InD,   \* stream output classes (plain / dictionary / zero-column), input classes
           WrongC,                       \* class of an exchange input with a mismatching schema
-          MaxTicks, MaxHeld,
+          MaxTicks, MaxHeld, MaxSeg,
           SizeOf(_),                    \* bytes the allocator charges for a batch of this class (calibrated on the real code)
           NBytes(_), Rows(_),           \* RecordBatch.nbytes / num_rows of the class's batches
           Thr(_),                       \* world -> VGI_RPC_SHM_MIN_BATCH_BYTES
           Allowed(_, _)                 \* world, class -> is the class part of that world's palette (keeps the space small)
 AllFixes == {"coerce", "stray", "cb"}
 
-VARIABLES cfg, fx, mem, held, st, bad
-vars == <<cfg, fx, mem, held, st, bad>>
+VARIABLES cfg, fx, mem, held, st, bad, seg
+vars == <<cfg, fx, mem, held, st, bad, seg>>
 
 Idle == [pc |-> "idle", k |-> "-", ci |-> "-", co |-> "-", fail |-> "-", nout |-> 0, n |-> 0, prev |-> -1, io |-> -1,
          mine |-> {}]
-Init == /\ cfg \in Configs /\ fx \in FixSets /\ mem = {} /\ held = {} /\ st = Idle /\ bad = {}
+Init == /\ cfg \in Configs /\ fx \in FixSets /\ mem = {} /\ held = {} /\ st = Idle /\ bad = {} /\ seg = 0
 
 \* ------------------------------------------------------------------------------ the allocator (first fit, shm.py)
 Min(S) == CHOOSE x \in S : \A y \in S : x <= y
@@ -79,14 +89,14 @@ BeginUnary(rq, res, out) ==
   /\ LET w == IF rq = "-" THEN Inline(mem) ELSE WriteToShm(mem, rq, "c2s") IN
      /\ mem' = w.m
      /\ st' = [Idle EXCEPT !.pc = "u_srv", !.k = "u", !.ci = rq, !.co = res, !.fail = out, !.io = w.off]
-  /\ UNCHANGED <<cfg, fx, held, bad>>
+  /\ UNCHANGED <<seg, cfg, fx, held, bad>>
 SUnary ==
   /\ st.pc = "u_srv"
   /\ LET m1 == IF st.io = -1 THEN mem ELSE Free(mem, st.io)                 \* _read_request: resolve, as_py, release
-         w == IF st.fail = "err" THEN Inline(m1) ELSE WriteToShm(m1, st.co, "s2c") IN
+         w == IF st.fail \in {"err", "unk"} THEN Inline(m1) ELSE WriteToShm(m1, st.co, "s2c") IN
      /\ Mark(Garbage(mem, st.io, st.ci))
      /\ mem' = w.m /\ st' = [st EXCEPT !.pc = "u_cli", !.io = w.off]
-  /\ UNCHANGED <<cfg, fx, held>>
+  /\ UNCHANGED <<seg, cfg, fx, held>>
 CUnary ==
   /\ st.pc = "u_cli"
   /\ IF st.fail = "cb"
@@ -95,7 +105,7 @@ CUnary ==
      ELSE /\ Mark(Garbage(mem, st.io, st.co))
           /\ mem' = IF st.io = -1 THEN mem ELSE Free(mem, st.io)             \* finally: batch.release()
   /\ st' = Idle
-  /\ UNCHANGED <<cfg, fx, held>>
+  /\ UNCHANGED <<seg, cfg, fx, held>>
 
 \* ------------------------------------------------------------------------------ streams
 \* fail: "none" endless | "finish" (producer) / "raise": the process() call after nout outputs finishes / raises
@@ -108,15 +118,16 @@ Shape(k, ci, co, fail) ==
   \/ k = "x" /\ ci \in InP /\ co \in OutP /\ fail = "schema"
 BeginStream(k, ci, co, fail, nout) ==
   /\ st.pc = "idle" /\ Shape(k, ci, co, fail) /\ Pal(ci) /\ Pal(co)
+  /\ fail = "init" => cfg.att # "percall"      \* the stray-input bookkeeping belongs to serve(); a bare serve_one loop has none
   /\ nout \in 0..(MaxTicks - 1) /\ (fail \in {"none", "init", "schema"} => nout = 0)
   /\ st' = [Idle EXCEPT !.pc = "s_cli", !.k = k, !.ci = ci, !.co = co, !.fail = fail, !.nout = nout]
-  /\ UNCHANGED <<cfg, fx, mem, held, bad>>
+  /\ UNCHANGED <<seg, cfg, fx, mem, held, bad>>
 InClass == IF st.fail = "schema" /\ st.n = st.nout THEN WrongC ELSE st.ci
 CInput ==
   /\ st.pc = "s_cli" /\ st.n < MaxTicks
   /\ LET w == IF st.k = "p" THEN Inline(mem) ELSE WriteToShm(mem, InClass, "c2s") IN
      /\ mem' = w.m /\ st' = [st EXCEPT !.pc = "s_srv", !.io = w.off]
-  /\ UNCHANGED <<cfg, fx, held, bad>>
+  /\ UNCHANGED <<seg, cfg, fx, held, bad>>
 Lose(m, o, fix) == IF o = -1 THEN m ELSE IF fix \in fx THEN Free(m, o) ELSE Hand(m, o, "lost")
 SProcess ==
   /\ st.pc = "s_srv"
@@ -139,7 +150,7 @@ SProcess ==
                   ELSE LET w == WriteToShm(m2, st.co, "s2c") IN               \* _flush_collector
                        /\ mem' = w.m
                        /\ st' = [st EXCEPT !.pc = "s_data", !.prev = st.io, !.io = w.off]
-  /\ UNCHANGED <<cfg, fx, held>>
+  /\ UNCHANGED <<seg, cfg, fx, held>>
 CbNow == st.fail = "cb" /\ st.n = st.nout
 CData(keep) ==
   /\ st.pc = "s_data" /\ keep \in BOOLEAN /\ ~CbNow
@@ -152,24 +163,24 @@ CData(keep) ==
                /\ st' = [st EXCEPT !.pc = "s_cli", !.n = @ + 1, !.io = -1, !.mine = @ \cup {st.io}]
           ELSE /\ mem' = Free(mem, st.io) /\ UNCHANGED held                   \* the caller's release()
                /\ st' = [st EXCEPT !.pc = "s_cli", !.n = @ + 1, !.io = -1]
-  /\ UNCHANGED <<cfg, fx>>
+  /\ UNCHANGED <<seg, cfg, fx>>
 \* the log callback raises inside tick()/exchange(): the output batch stays unread on the wire, the session stays open
 CDataCb ==
   /\ st.pc = "s_data" /\ CbNow
   /\ st' = [st EXCEPT !.pc = "s_cbwait"]
-  /\ UNCHANGED <<cfg, fx, mem, held, bad>>
+  /\ UNCHANGED <<seg, cfg, fx, mem, held, bad>>
 \* close()/cancel(): EOS (or cancel) on the input stream, then drain the output; a pending pointer batch is resolved
 \* by the drain and dropped
 CClose(how) ==
   /\ st.pc \in {"s_cli", "s_cbwait"} /\ how \in {"close", "cancel"}
   /\ mem' = IF st.pc = "s_cbwait" THEN Lose(mem, st.io, "cb") ELSE mem
   /\ st' = [st EXCEPT !.pc = "s_end", !.io = -1]
-  /\ UNCHANGED <<cfg, fx, held, bad>>
+  /\ UNCHANGED <<seg, cfg, fx, held, bad>>
 SEnd ==
   /\ st.pc = "s_end"
   /\ mem' = IF st.fail = "init" \/ st.prev = -1 THEN mem ELSE Free(mem, st.prev)  \* finally: release the final input, then EOS
   /\ st' = [st EXCEPT !.pc = "s_drain", !.prev = -1]
-  /\ UNCHANGED <<cfg, fx, held, bad>>
+  /\ UNCHANGED <<seg, cfg, fx, held, bad>>
 \* the session is over (error / stop / drained); the caller releases the batches it kept from this call, or keeps them
 EndCall(rel) ==
   /\ st.pc \in {"s_err", "s_stop", "s_drain"} /\ rel \in BOOLEAN /\ (st.mine = {} => rel = FALSE)
@@ -177,15 +188,22 @@ EndCall(rel) ==
                  /\ bad' = bad \cup (IF \A o \in st.mine : FreeOwn(mem, o, "cli") THEN {} ELSE {"badfree"})
             ELSE UNCHANGED <<mem, held, bad>>
   /\ st' = Idle
-  /\ UNCHANGED <<cfg, fx>>
+  /\ UNCHANGED <<seg, cfg, fx>>
 \* between calls the caller may release a batch it kept from an earlier call
 ReleaseHeld(o) ==
   /\ st.pc = "idle" /\ o \in held
   /\ mem' = Free(mem, o) /\ held' = held \ {o}
   /\ bad' = bad \cup (IF FreeOwn(mem, o, "cli") THEN {} ELSE {"badfree"})
-  /\ UNCHANGED <<cfg, fx, st>>
+  /\ UNCHANGED <<seg, cfg, fx, st>>
 
-Next == \/ \E rq \in ReqC \cup {"-"}, res \in ResC, out \in {"ok", "err", "cb"} : BeginUnary(rq, res, out)
+\* between calls, with nothing held, the client goes on with a fresh (empty) segment on the same connection
+NewSegment ==
+  /\ st.pc = "idle" /\ cfg.att \in {"cached", "percall"} /\ mem = {} /\ held = {} /\ seg < MaxSeg
+  /\ seg' = seg + 1
+  /\ UNCHANGED <<cfg, fx, mem, held, st, bad>>
+
+Next == \/ \E rq \in ReqC \cup {"-"}, res \in ResC, out \in {"ok", "err", "cb", "unk"} : BeginUnary(rq, res, out)
+        \/ NewSegment
         \/ SUnary \/ CUnary
         \/ \E k \in {"p", "x"}, ci \in InP \cup InD \cup {"-"}, co \in OutP \cup OutD \cup OutZ,
               fail \in {"none", "finish", "raise", "schema", "init", "cb"}, nout \in 0..(MaxTicks - 1) : BeginStream(k, ci, co, fail, nout)
